@@ -551,7 +551,7 @@ func (c *c26Child) commit() {
 		}
 	}
 	if len(c.snap) == 0 {
-		time.Sleep(50 * time.Millisecond) // nothing observable tells that the sender consumed the TG
+		time.Sleep(150 * time.Millisecond) // nothing observable tells that the sender consumed the TG
 	}
 	c.emit(t)
 	if !c.pendingSend {
@@ -681,7 +681,14 @@ func (c *c26Child) release() bool {
 	if !waitFor(func() bool { return c.nLogged() >= want }, c26Wait) {
 		c.fail("sender did not finish its iteration")
 	}
-	time.Sleep(30 * time.Millisecond)
+	// the sender has passed its send once the parked channel's stream has the TG (or holds it / has it queued)
+	if r2, ok := c.m[c.parkedAddr]; ok {
+		f := c.st[r2]
+		waitFor(func() bool {
+			return len(f.got()) >= len(c.sent[r2]) || atomic.LoadInt32(&f.inSend) == 1
+		}, c26Wait)
+	}
+	time.Sleep(150 * time.Millisecond)
 	c.emit(c.parkedT)
 	c.lab0("SEnd", 3)
 	c.drainStreams()
